@@ -200,3 +200,62 @@ def c_large_counts(sel: int, which: int, bad: int, rev: bool) -> bool:
     if which == 0:
         return isinstance(r, tuple) and len(r) == n and list(r) == exp
     return type(r) is list and r == exp
+
+
+def _finished_at_call(which, k0, k1, k2, v0, v1, v2, mask):
+    # inputs selected by mask are already finished (value / failed / cancelled) when the function is
+    # called - it returns a future all the same; the others finish afterwards, in order
+    kinds, vals, excs = [k0, k1, k2], [v0, v1, v2], [E("0"), E("1"), E("2")]
+    ins = [RF(), RF(), RF()]
+    pre = [i for i in range(3) if mask & (1 << i)]
+    post = [i for i in range(3) if not mask & (1 << i)]
+    for i in pre:
+        _finish(ins[i], kinds[i], vals[i], excs[i])
+    if which == 0:
+        out = f_zip(*ins)
+    elif which == 1:
+        out = f_sequence(ins)
+    else:
+        out = f_traverse(lambda f: f, ins)
+    for i in post:
+        _finish(ins[i], kinds[i], vals[i], excs[i])
+    exp = None
+    for i in pre + post:
+        if kinds[i] == 1:
+            exp = ("error", excs[i])
+            break
+        if kinds[i] == 2:
+            exp = ("cancelled",)
+            break
+    got = _outcome(out)
+    if exp is None:
+        if which == 0:
+            return got[0] == "value" and isinstance(got[1], tuple) and tuple(got[1]) == (v0, v1, v2)
+        return got[0] == "value" and type(got[1]) is list and got[1] == [v0, v1, v2]
+    if got[0] != exp[0]:
+        return False
+    return exp[0] != "error" or got[1] is exp[1]
+
+
+def c_zip_inputs_finished_at_call(k0: int, k1: int, k2: int, v0: int, v1: int, v2: int, mask: int) -> bool:
+    """
+    pre: 0 <= k0 <= 2 and 0 <= k1 <= 2 and 0 <= k2 <= 2 and 0 <= mask <= 7
+    post: __return__
+    """
+    return _finished_at_call(0, k0, k1, k2, v0, v1, v2, mask)
+
+
+def c_sequence_inputs_finished_at_call(k0: int, k1: int, k2: int, v0: int, v1: int, v2: int, mask: int) -> bool:
+    """
+    pre: 0 <= k0 <= 2 and 0 <= k1 <= 2 and 0 <= k2 <= 2 and 0 <= mask <= 7
+    post: __return__
+    """
+    return _finished_at_call(1, k0, k1, k2, v0, v1, v2, mask)
+
+
+def c_traverse_inputs_finished_at_call(k0: int, k1: int, k2: int, v0: int, v1: int, v2: int, mask: int) -> bool:
+    """
+    pre: 0 <= k0 <= 2 and 0 <= k1 <= 2 and 0 <= k2 <= 2 and 0 <= mask <= 7
+    post: __return__
+    """
+    return _finished_at_call(2, k0, k1, k2, v0, v1, v2, mask)
